@@ -2,8 +2,13 @@ package props
 
 import (
 	"fmt"
+	"github.com/cinar/indicator/v2/momentum"
+	strend "github.com/cinar/indicator/v2/strategy/trend"
 	"math"
 	"reflect"
+	"runtime"
+	"sort"
+	"strings"
 
 	"github.com/cinar/indicator/v2/asset"
 	"github.com/cinar/indicator/v2/helper"
@@ -177,7 +182,24 @@ func baseStrats(ctx *run.Ctx, nrand int) []namedStrat {
 						// ... after the instance has already served a (short) series
 						helper.Drain(d.Compute(helper.SliceToChan(reg.Snaps(gen.Bars(gen.New(1, "warm"), gen.Walk, 7)))))
 					}
-					copyExported(d, row.New(cfg))
+					if used && !strings.HasSuffix(ctx.Prop, "R") {
+						// (not in the race phases: the detector has no happens-before edge
+						// from a finished side-branch goroutine of the first use to this
+						// write and would report the harness's own re-tuning)
+						// let the pipeline of the first use wind down completely before
+						// its configuration is written to
+						for base, calm := runtime.NumGoroutine(), 0; calm < 50; {
+							runtime.Gosched()
+							if n := runtime.NumGoroutine(); n < base {
+								base, calm = n, 0
+							} else {
+								calm++
+							}
+						}
+						retuneExported(d, row.New(cfg))
+					} else {
+						copyExported(d, row.New(cfg))
+					}
 					return d
 				}
 				name += " (set through public fields)"
@@ -217,6 +239,50 @@ func copyExported(dst, src strategy.Strategy) {
 	for i := 0; i < d.NumField(); i++ {
 		if d.Type().Field(i).IsExported() {
 			d.Field(i).Set(s.Field(i))
+		}
+	}
+}
+
+// retuneExported re-tunes dst IN PLACE to the configuration of src: exported
+// fields are assigned, but where an exported field points to a struct of the
+// same type (the indicator inside a strategy, the moving average inside an
+// indicator) the existing object is kept and its exported fields are re-tuned
+// recursively - as a user does who writes s.Long.Period = 10. Unexported
+// state at every level survives, so anything remembered from an earlier use
+// is now stale.
+func retuneExported(dst, src strategy.Strategy) {
+	retuneStruct(reflect.ValueOf(dst).Elem(), reflect.ValueOf(src).Elem())
+}
+
+func retuneStruct(d, s reflect.Value) {
+	t := d.Type()
+	exported := 0
+	for i := 0; i < t.NumField(); i++ {
+		if t.Field(i).IsExported() {
+			exported++
+		}
+	}
+	if exported == 0 {
+		if d.CanSet() {
+			d.Set(s)
+		}
+		return
+	}
+	for i := 0; i < t.NumField(); i++ {
+		if !t.Field(i).IsExported() {
+			continue
+		}
+		df, sf := d.Field(i), s.Field(i)
+		switch {
+		case df.Kind() == reflect.Ptr && !df.IsNil() && !sf.IsNil() && df.Elem().Kind() == reflect.Struct:
+			retuneStruct(df.Elem(), sf.Elem())
+		case df.Kind() == reflect.Interface && !df.IsNil() && !sf.IsNil() && df.Elem().Type() == sf.Elem().Type() &&
+			df.Elem().Kind() == reflect.Ptr && df.Elem().Elem().Kind() == reflect.Struct:
+			retuneStruct(df.Elem().Elem(), sf.Elem().Elem())
+		case df.Kind() == reflect.Struct:
+			retuneStruct(df, sf)
+		default:
+			df.Set(sf)
 		}
 	}
 }
@@ -301,6 +367,79 @@ func compoundStrats(ctx *run.Ctx, base []namedStrat, count int) []namedStrat {
 			x := a.New()
 			return strategy.NewMajorityStrategyWith("majority", []strategy.Strategy{x, x, x})
 		})
+	}
+	// MACD-RSI with its sub-strategies re-tuned through the public fields, the
+	// RSI being the slower indicator in two of them.
+	for _, t := range [][4]int{{5, 10, 4, 13}, {3, 6, 2, 20}, {12, 26, 9, 5}} {
+		t := t
+		add(fmt.Sprintf("compound.MacdRsiStrategy (MACD %d/%d/%d, RSI %d through the public fields)", t[0], t[1], t[2], t[3]), max(t[1]+t[2]-2, t[3]), func() strategy.Strategy {
+			x := compound.NewMacdRsiStrategy()
+			x.MacdStrategy = strend.NewMacdStrategyWith(t[0], t[1], t[2])
+			x.RsiStrategy.Rsi = momentum.NewRsiWithPeriod[float64](t[3])
+			return x
+		})
+	}
+	// two members of one compound that carry the same name but not the same
+	// configuration, and Buy-and-Hold (which trades on the first day) beside a
+	// strategy with a warm-up
+	byRow := map[string][]namedStrat{}
+	for _, b := range base {
+		if b.Row != nil {
+			byRow[b.Row.Name] = append(byRow[b.Row.Name], b)
+		}
+	}
+	rowNames := make([]string, 0, len(byRow))
+	for n := range byRow {
+		rowNames = append(rowNames, n)
+	}
+	sort.Strings(rowNames)
+	sameName := 0
+	for _, off := range r.Perm(len(rowNames)) {
+		l := byRow[rowNames[off]]
+		if len(l) < 2 || sameName >= min(count, 4) {
+			continue
+		}
+		a, b := l[0], l[len(l)-1]
+		if a.New().Name() != b.New().Name() || fmt.Sprint(a.Cfg) == fmt.Sprint(b.Cfg) {
+			continue // only pairs that print the same name although they are configured differently
+		}
+		sameName++
+		plusOne = allPlus(a, b)
+		add(fmt.Sprintf("strategy.AndStrategy (%s | %s)", a.Name, b.Name), max(a.Warm, b.Warm), func() strategy.Strategy {
+			return strategy.NewAndStrategy("and", a.New(), b.New())
+		})
+		plusOne = allPlus(a, b)
+		add(fmt.Sprintf("strategy.AndStrategy (%s | %s)", b.Name, a.Name), max(a.Warm, b.Warm), func() strategy.Strategy {
+			return strategy.NewAndStrategy("and", b.New(), a.New())
+		})
+		plusOne = allPlus(a, b)
+		add(fmt.Sprintf("strategy.OrStrategy (%s | %s)", a.Name, b.Name), max(a.Warm, b.Warm), func() strategy.Strategy {
+			return strategy.NewOrStrategy("or", a.New(), b.New())
+		}, min(a.Warm, b.Warm))
+	}
+	// ... in particular the two strategy types that expose an IdlePeriod method
+	for _, rn := range []string{"trend.TsiStrategy", "momentum.TripleRsiStrategy"} {
+		row := reg.StratByName(rn)
+		if row == nil {
+			continue
+		}
+		cfg := row.Rand(gen.New(ctx.Seed, "split-idle/"+rn))
+		w := row.Warm(row.New(cfg))
+		add(fmt.Sprintf("strategy.SplitStrategy (strategy.BuyAndHoldStrategy | %s %v)", rn, cfg), w, func() strategy.Strategy {
+			return strategy.NewSplitStrategy(strategy.NewBuyAndHoldStrategy(), row.New(cfg))
+		}, 0)
+		add(fmt.Sprintf("strategy.SplitStrategy (%s %v | decorator.InverseStrategy (strategy.BuyAndHoldStrategy))", rn, cfg), w, func() strategy.Strategy {
+			return strategy.NewSplitStrategy(row.New(cfg), decorator.NewInverseStrategy(strategy.NewBuyAndHoldStrategy()))
+		}, 0)
+	}
+	for i := 0; i < min(count, 3); i++ {
+		a := pick()
+		add(fmt.Sprintf("strategy.SplitStrategy (strategy.BuyAndHoldStrategy | %s)", a.Name), a.Warm, func() strategy.Strategy {
+			return strategy.NewSplitStrategy(strategy.NewBuyAndHoldStrategy(), a.New())
+		}, 0)
+		add(fmt.Sprintf("strategy.SplitStrategy (%s | strategy.BuyAndHoldStrategy)", a.Name), a.Warm, func() strategy.Strategy {
+			return strategy.NewSplitStrategy(a.New(), strategy.NewBuyAndHoldStrategy())
+		}, 0)
 	}
 	add("compound.MacdRsiStrategy default", 33, func() strategy.Strategy { return compound.NewMacdRsiStrategy() })
 	add("compound.MacdRsiStrategy (45,55)", 33, func() strategy.Strategy { return compound.NewMacdRsiStrategyWith(45, 55) })
